@@ -50,3 +50,27 @@ Proof.
     cbn [str_eqb]. rewrite orb_true_l, andb_true_r. rewrite IH. reflexivity. }
   rewrite E. reflexivity.
 Qed.
+
+(* ---- Client.roundTrip: the cluster a query is answered by ---- *)
+Lemma client_round_trip_exact : forall (A Q R : Type) (transport : A -> Q -> R) req_addr client_addr q,
+  client_round_trip transport req_addr client_addr q =
+  option_map (fun a => transport a q) (effective_addr req_addr client_addr).
+Proof. intros. destruct req_addr, client_addr; reflexivity. Qed.
+
+Lemma client_round_trip_request_addr : forall (A Q R : Type) (transport : A -> Q -> R) a client_addr q,
+  client_round_trip transport (Some a) client_addr q = Some (transport a q).
+Proof. reflexivity. Qed.
+
+Lemma client_round_trip_no_addr : forall (A Q R : Type) (transport : A -> Q -> R) q,
+  client_round_trip transport None None q = None.
+Proof. reflexivity. Qed.
+
+(* composed with a user-level mapping f (metadata_map, offsetfetch_map, ...): the API
+   result is f of the answer of the cluster at the effective address *)
+Lemma client_query_exact : forall (A Q R U : Type) (transport : A -> Q -> R) (f : R -> U) req_addr client_addr q,
+  option_map f (client_round_trip transport req_addr client_addr q) =
+  match effective_addr req_addr client_addr with
+  | Some a => Some (f (transport a q))
+  | None => None
+  end.
+Proof. intros. destruct req_addr, client_addr; reflexivity. Qed.
